@@ -10,7 +10,7 @@ git -C /repo worktree add -q --detach $wt HEAD || exit 2
   gcc -w -fsanitize=address -I$wt/include -I$wt/_build -DURI_LIBRARY_BUILD $seed/demo.c $wt/src/*.c -o $wt/demo_seed 2>>$log; ASAN_OPTIONS=detect_leaks=0 $wt/demo_seed >/dev/null 2>&1; echo "demo with change: exit $?" >> $log )
 git -C /repo worktree remove --force $wt
 git -C /repo apply $seed/patch.diff || { echo "patch does not apply to /repo" >> $log; exit 2; }
-( cd /verif && UK_NO_SELFCHECK=1 ./check $id --tier $tier > $seed/check_$id.log 2>&1; echo "check $id $tier with change: exit $?" >> $log )
+( cd /verif && VERIF_OUT=/tmp/seedconfirm_out UK_NO_SELFCHECK=1 ./check $id --tier $tier > $seed/check_$id.log 2>&1; echo "check $id $tier with change: exit $?" >> $log )
 git -C /repo checkout -- .
 grep -E "^VIOLATION|^  [a-z]+:" $seed/check_$id.log | head -4 >> $log
 cat $log
